@@ -186,7 +186,7 @@ PROPS = {
         'technique': 'modular Verus proof of the real packet builders of net/ipv4.rs and net/ipv6.rs against the imported contracts of the packet codec (pkt_views, pkt_checksum); Kani harnesses on the real dispatch functions with a capturing socket',
         'level_text': 'make_ipv4_packet is proved to produce, for every payload and configuration, a header with version 4, IHL 5, the configured TOS, total length 20+payload in network order, the given identification, DF set / offset 0, the probe ttl, the protocol number, source and destination addresses and the payload at octet 20 (RFC 791 positions); make_udp_packet (v4 and v6): ports, length = 8+payload, payload, checksum = RFC 1071 over pseudo header and datagram; make_echo_request_icmp_packet (v4 and v6): type 8/128, code 0, identifier, sequence, pattern payload, checksum; payload-size helpers make the total size equal the configured packet size. All slice bounds of the builders are discharged at their call preconditions.',
         'level_note': 'The codec is used through contracts proved in units pkt_views / pkt_checksum (imported, not re-verified). dispatch_* (socket calls, error mapping closures, Paris swap) are covered by bounded Kani harnesses with concrete packet sizes 28 and 33 (all other inputs symbolic), not by Verus. Non-raw/unprivileged paths and TCP: argument plumbing only; the IPv4 header checksum is the kernel\'s. Trusted: pattern_array/zero_array shims for `[x; N]`.',
-        'units': ['core_net_build', 'pkt_views'],
+        'units': ['core_net_build', 'pkt_views', 'pkt_checksum'],
         'kani': {'quick': ['k4_dispatch_icmp_28'],
                  'thorough': ['k4_dispatch_icmp_28', 'k4_dispatch_icmp_33', 'k4_dispatch_udp_28', 'k4_dispatch_udp_33', 'k4_dispatch_udp_paris', 'k6_dispatch_icmp_53', 'k6_dispatch_udp_dublin']},
         'assumptions': ['Linux target: Ipv4ByteOrder::Host is compiled out'],
